@@ -109,7 +109,7 @@ def check_fresh_machinery(ctx, nm, res, rule):
                 clos = " ".join(canon(Exprs(c).local(0)) for c in mir.fns.values() if c.kind == "Closure" and c.parent == hf[0].key)
                 full = full.replace(m.group(0), "[%s :: %s]" % (inner, clos))
     srcs = {
-        "nonterminal names": bool(re.search(r"slice::iter\(param1\.nonterminals\)", full)) and ("name.name" in full),
+        "nonterminal names": bool(re.search(r"slice::iter\(param1\.nonterminals\)", full)) and ("name.name" in full or "Nonterminal::name" in full),
         "terminal variant names": bool(re.search(r"slice::iter\(param1\.terminal_enum\.variants\)", full)) and "dollarless_name" in full,
         "terminal enum name": bool(re.search(r"iter::once\(param1\.terminal_enum\.name\)", full)),
     }
@@ -152,8 +152,8 @@ def check_fresh_machinery(ctx, nm, res, rule):
             ok = False
             res.violate(rule, "fresh-fn|return-not-inserted", f.where, "the fresh-name function returns `%s` on a path where that name was not inserted into the used set: two internal items can get the same name" % val[:120])
     # the candidate is tested with contains on the same set
-    tests = [c for c in f.calls() if (c.rpath or "").endswith("HashSet::<T, S, A>::contains")]
-    res.floor("contains-tests in the fresh-name function", len(tests), 1)
+    tests = [c for c in f.calls() if (c.rpath or "").endswith(("HashSet::<T, S, A>::contains", "HashSet::<T, S, A>::insert"))]
+    res.floor("containment tests (contains / the bool of insert) in the fresh-name function", len(tests), 1)
     # ... and what is returned is a name the set was just found NOT to contain: the return is dominated by the
     # not-contained edge of a containment test of that very value (edge dominance, so that it also works inside
     # the exit-less search loop, where classic control dependence sees nothing)
@@ -166,11 +166,16 @@ def check_fresh_machinery(ctx, nm, res, rule):
             t_ = blk["term"]
             ce = canon(ex.operand(t_["discr"]))
             m_ = re.match(r"^(Not\()?HashSet::contains\(param\d+, (.*?)\)\)?$", ce)
-            if not m_:
+            m_i = re.match(r"^(Not\()?HashSet::insert\(param\d+, (.*?)\)\)?$", ce)
+            if not m_ and not m_i:
                 continue
-            tested = m_.group(2)
+            tested = (m_ or m_i).group(2)
             tg = {v: tb for (v, tb) in t_["targets"]}
-            if not m_.group(1):
+            neg_ = bool((m_ or m_i).group(1))
+            if m_i:
+                # `insert` returns true exactly when the value was not present: the not-contained edge is the true edge
+                neg_ = not neg_
+            if not neg_:
                 sf = tg.get(0)
             else:
                 sf = t_["otherwise"] if 0 in tg else None
@@ -398,6 +403,7 @@ def run_rules(ctx, res):
                     if alts is not None and all(a in internal_enums[hk]["variants"] for a in alts):
                         PATH_TAIL_FNS.add(alt_fn_name(t, tok))
     n_lit = n_path = n_def = n_bind = 0
+    gen_fn_defs, gen_fn_calls = [], []
     for (t, toks) in all_tok:
         mask = in_attr_mask(toks)
         gens = set(generic_params(toks))
@@ -442,7 +448,8 @@ def run_rules(ctx, res):
                     res.inst(FRESH, key, where, True, "%s" % kinds)
                     if what == "fn" and any(k.startswith("derived:") for k in kinds):
                         # generated function names: checked by R-C05-unique-fns
-                        pass
+                        if tok.k == "ph":
+                            gen_fn_defs.append((t, tok, tpl.resolve_text(t, tok.ph).replace(" ", ""), where))
                     elif not okk:
                         res.violate(FRESH, key, where, "the name in %s position `%s` is not bound to a fresh name or a user name (%s)" % (what, tok.s, kinds))
                     if what == "generic-param" and not all(k.startswith("fresh:") for k in kinds):
@@ -479,6 +486,9 @@ def run_rules(ctx, res):
                     if fl is not None and fl.isupper():
                         res.violate(LIT, "binder|%s" % tok.s, where, "capitalised binder `%s` shadows a user type of the same name" % tok.s)
                 continue
+            # ---- calls of generated methods: `.{m}(`
+            if tok.k == "ph" and prev is not None and prev.s == "." and nxt is not None and nxt.s == "(" and kind_of_ph(t, tok.ph).startswith("derived:"):
+                gen_fn_calls.append((t, tok, tpl.resolve_text(t, tok.ph).replace(" ", ""), where))
             # ---- paths
             if prev is not None and prev.s == "::" and i >= 2:
                 head = toks[i - 2]
@@ -603,7 +613,8 @@ def run_rules(ctx, res):
         if not t.segs:
             continue
         txt = "".join(s_[1] if s_[0] == "text" else "\x01" for s_ in t.segs)
-        if not re.fullmatch(r"[A-Za-z0-9_\x01]+", txt) or "\x01" not in txt:
+        if not re.fullmatch(r"[A-Za-z0-9_\x01]+", txt) or "\x01" not in txt or not re.search(r"[A-Za-z_]", txt):
+            # (a template without a literal letter or underscore is not the spelling of a generated identifier)
             continue
         phs = [s_ for s_ in t.segs if s_[0] == "ph"]
         kinds = [kind_of_ph(t, p[1]) for p in phs]
@@ -617,6 +628,23 @@ def run_rules(ctx, res):
         res.inst(UNIQ, key, t.where, True, "last part %s; index=%s" % (last[1], ok))
         if not ok:
             res.violate(UNIQ, key, t.where, "generated identifier `%s` depends on user text but does not end in an enumerate() position index: two terminals/rules can yield the same name" % t.text)
+
+    # ---- generated method names: the definition site and the call sites read the name from one and the same table
+    def name_table(d):
+        m_ = re.match(r"^expr:self\.(\w+)\.get\(.*\)(\.unwrap\(\)|\?)$", d)
+        return m_.group(1) if m_ else None
+    if gen_fn_calls:
+        tables = {name_table(d) for (_, _, d, _) in gen_fn_calls}
+        for (t_, tok_, d, w_) in gen_fn_defs:
+            if not any(c_[1].ph != tok_.ph or True for c_ in gen_fn_calls):
+                continue
+            # only method definitions that are called through a placeholder elsewhere are of interest: the per-terminal extractors
+            if not ("self" in [x.s for x in t_.tokens[:12]]):
+                continue
+            tb = name_table(d)
+            res.inst(UNIQ, "name-source|%s" % t_.fn, w_, True, "definition name from %s; call sites read %s" % (d[:80], sorted(x for x in tables if x)))
+            if tb is None or tables != {tb}:
+                res.violate(UNIQ, "name-source|%s" % t_.fn, w_, "the generated method defined here is named by `%s` while its call sites take the name from %s: computed twice, the two can differ for some terminal names and the emitted module then calls a method that does not exist" % (d[:120], sorted(x for x in tables if x) or [c_[2][:60] for c_ in gen_fn_calls][:2]))
 
     # ---- R-C05-caps
     from ..mir import Mir
